@@ -7,6 +7,8 @@ import random
 import numpy as np
 
 from .. import gen
+
+gen.WIDE_RATE = 0.01   # wide (~100 operation) instances: too costly here / not needed
 from ..ref import Ref
 
 ID = "C18"
